@@ -7,6 +7,7 @@ pub mod c07;
 pub mod c08;
 pub mod c09;
 pub mod c10;
+pub mod c11;
 pub mod common;
 pub mod rig;
 pub mod robs;
@@ -21,6 +22,7 @@ pub fn dispatch(ctx: &Ctx) -> Option<i32> {
         "C03" => c03_check(ctx),
         "C04" => c04_check(ctx),
         "C06" => c06_check(ctx),
+        "C11" => c11_check(ctx),
         "C13" => c13_check(ctx),
         "C15" => c15_check(ctx),
         "C16" => c16_check(ctx),
@@ -366,6 +368,31 @@ fn c16_check(ctx: &Ctx) -> i32 {
         exhaustive: false,
         min_nontrivial: ctx.tier.pick(300, 3000),
         extra: BTreeMap::new(),
+    };
+    finish(ctx, agg, rep)
+}
+
+fn c11_check(ctx: &Ctx) -> i32 {
+    let budget = Duration::from_secs(ctx.tier.pick(30, 300));
+    let cases = Arc::new(c11::enumerate());
+    let reps = ctx.tier.pick(12u64, 600);
+    let n = cases.len() as u64 * reps;
+    let c2 = cases.clone();
+    let agg = shard_runs(ctx, "main", n, budget, Duration::from_secs(30), Arc::new(move |run, seed| {
+        let case = &c2[(run % c2.len() as u64) as usize];
+        c11::run_case(run, seed, case)
+    }));
+    let mut extra = BTreeMap::new();
+    extra.insert("positions_enumerated".into(), serde_json::json!(cases.len()));
+    extra.insert("schedules_per_position".into(), serde_json::json!(reps));
+    let rep = Report {
+        level: "exploration",
+        rule: "EVERY (channel kind in {port, base, lr, mpsc with 1-3 senders}, event in {all senders dropped, sender dropped inside a chunked message (port), receiver closed, receiver dropped}, stream length in {1,2,4,8}, event position 0..=length) is run, each under several seeded (Cfg pair, message sizes incl. multi-chunk, network schedule, H1) draws. A case is the tuple x seed; all are non-trivial; distinct by hash(tuple, sizes, interleaving signature).".into(),
+        explanation: "Sender drop: the receiver obtains every completed send, then end-of-stream, no error. Receiver close (receiver keeps receiving): every completed send is delivered, end-of-stream follows, a send after quiescence is refused, errors are classified as graceful close (is_closed / Closed{gracefully:true} / ClosedReason::Closed), Sender::closed() resolves. Receiver drop: later sends are refused and classified as not graceful (ClosedReason::Dropped), closed() resolves. mpsc: per sender the Sending results are Ok..Ok Err..Err and every Ok value was delivered.".into(),
+        assumptions: vec!["'eventually observable' restated as 'by quiescence of the healthy connection'".into()],
+        exhaustive: false,
+        min_nontrivial: ctx.tier.pick(1000, 10000),
+        extra,
     };
     finish(ctx, agg, rep)
 }
